@@ -792,7 +792,7 @@ func runVestCase(ta *TestApp, seed uint64, idx int, rep *Report, profile string)
 				en = st
 			}
 			// the message may list the coins in another order than the canonical one (basic validation accepts that; the handler sorts)
-			reversed := len(coins) >= 2 && rng.Chance(15)
+			reversed := len(coins) >= 2 && rng.Chance(40)
 			if reversed {
 				rep.Count("create_va.coins_not_in_canonical_order")
 			}
